@@ -1,9 +1,10 @@
 """C05 -- a downlink is accepted iff it is authentic and fresh (replay protection)."""
-from .. import core, machist, macstage
+import re
+from .. import ndevhist, core, machist, macstage
 
 ID = "C05"
 THEOREMS = ["C05_first_downlink", "C05_counter_rule", "C05_never_backwards", "C05_no_replay",
-            "C05_rejects_everything_else", "C05_accept_effects"]
+            "C05_rejects_everything_else", "C05_accept_effects", "C05_nb_downlinks_strictly_increase", "C05_inc_from_example"]
 KINDS = ["downlink", "acted upon", "oversized frame was accepted"]
 
 
@@ -104,6 +105,23 @@ def gen(rng, tier):
     return lines
 
 
+def front_judge(case, impl, model=None):
+    """reported downlink counters strictly increase until a join starts a new session"""
+    last = None
+    ops = [p.strip() for p in case.split("|")][1:]
+    for op, out in zip(ops, impl.split(" ; ")):
+        if op.startswith("join") or "JoinSuccess" in out:
+            last = None
+        m = re.match(r"DownlinkReceived\((\d+)\)", out)
+        if m:
+            n = int(m.group(1))
+            if last is not None and n <= last:
+                return {"kind": "downlink counters reported by the front-end are not strictly increasing (a frame acted on twice / counter moved backwards)",
+                        "previous": last, "reported": n}
+            last = n
+    return None
+
+
 def judge_arith(case, impl, model):
     if case.startswith("nfd"):
         return {"kind": "next_fcnt_down differs from the freshness rule n = wire (mod 2^16), last < n <= last + 16384", "spec_output": model}
@@ -122,6 +140,10 @@ def run(rep, tier, rng):
     lines = gen(rng, tier)
     core.diff_stage(rep, "X:C05:mac-histories", lines, macstage.make_judge(KINDS))
     macstage.oracle_pass(rep, lines, KINDS)
+    # the nb_device front-end (C05_nb_downlinks_strictly_increase speaks of the code through this correspondence): histories with valid,
+    # replayed, foreign, oversized and junk frames in the windows; the reported downlink counters must be strictly increasing per session
+    fe = ndevhist.histories(rng.fork("ndev"), tier)
+    core.diff_stage(rep, "X:C05:nb-front-end", fe, front_judge)
     rep.cov["rule"] = ("counter arithmetic: all 2^16 wire values for `last` on a stride through +-70000 of 0, 2^16, k*2^16, 2^31.., 2^32-1 (digest sweeps); "
                        "device histories: accepted counters walking across 0xFFFF/0x10000 and up to 2^32-1 (sessions patched through serde), "
                        "authentic frames of PHY length M+3..M+7 for 14 data-rate maxima M in Class A and C windows; replays, reordered, far-future (gap 16385+), wrong-epoch MIC, forged frames, Class A and Class C receive paths; "
